@@ -1,14 +1,22 @@
 """C14 - decided by spec/PonySession.tla: TLC checks the specification's invariants and action properties
 exhaustively in the bounded model; behaviours of the exported state graph are replayed into the real ORM on
-SQLite (harness/session.py) and this property's comparator decides (see harness/session_check.py)."""
-from .. import session_check, session_replay
+SQLite (harness/session.py) and this property's comparator decides (see harness/session_check.py).
+spec/PonyKeys.tla adds composite keys: a deterministic model of the identity map's key indexes and of the save queue."""
+from .. import session_check, session_replay, keys_c14
 
 LEVEL = 'model_checking'
 
 
 def run(ctx):
     session_check.run(ctx, 'C14')
+    quick = ctx.tier == 'quick'
+    res, stats, found = keys_c14.run(ctx, 1500 if quick else 15000, 4 if quick else 6, ctx.seed, check_level=6 if quick else 9)
+    keys_c14.report(ctx, 'C14', res, stats, found)
 
 
 def replay(ctx, rep):
+    if 'keys_trace' in rep:
+        keys_c14.replay(ctx, rep)
+        ctx.violations.append('replayed')
+        return
     session_replay.replay(ctx, rep)
